@@ -1,7 +1,7 @@
 """C10 - class instances carry the exact span of input they were parsed from."""
 from contracts import bind, rt_final, rt_walk, rt_errors
 from pyvc.report import Report
-from .common import run_fragments, run_rt
+from .common import run_fragments, run_rt, dependency_layer
 from . import wiring
 
 
@@ -22,4 +22,5 @@ def run(tier, seed):
                            'instance, the memo hands out the same object (converted once: visit de-duplicates by identity), indices are absolute')
     rep.assumptions.append('nesting / disjointness / order of spans follow from monotone position threading of Seq/List/class bodies (C01/C03/C05 contracts) when no Backtrack/lookahead is involved (paper)')
     rep.assumptions.append('Infix/Prefix/Postfix nodes get no span (outside the statement: it speaks of class instances)')
+    dependency_layer(rep, tier)
     return rep.finish()
